@@ -376,6 +376,8 @@ package node
 // ---- C04/C07: reading a leaf -----------------------------------------------------------------------------
 // a read vetoed by a pre-constraint asks the node nothing; a successful read always passes through the
 // post-constraints (with-defaults=trim lives there), whatever the node answered
+// (the schema default stands in only for a leaf the node reports as unset, and only when defaults were asked for:
+// a value the node does return — zero, empty or false included — is what is handed on)
 //@ func (sel *Selection) get(r *FieldRequest, hnd *ValueHandle, useDefault bool) error
 //@   mode int
 //@   property C04 C07 C12
@@ -383,6 +385,7 @@ package node
 //@   assigns open, failed, nodeWrites, writesAfterFail, fieldWrites, fieldPostChecks, nonNavChecks, sel.Constraints.compiled, *r, hnd.Val
 //@   check (!proceed || constraintErr != nil) ==> result == constraintErr && fieldPostChecks == old(fieldPostChecks) && fieldWrites == old(fieldWrites)
 //@   check result == nil && proceed && constraintErr == nil ==> fieldPostChecks == old(fieldPostChecks) + 1
+//@   callsite NewValue: hnd.Val == nil && useDefault
 //@   ensures fieldWrites == old(fieldWrites) && nodeWrites == old(nodeWrites)
 //@   ensures stepOK(result) && writesAfterFail == old(writesAfterFail)
 
